@@ -169,6 +169,16 @@ class Hooks:
                 self.log.append(('fault', 'bcast', k, p['arg']))
                 raise comm_exception(p['arg'])
 
+    def fire_sub(self, name):
+        """the communicator is asked to subscribe the process (hooks 'sub_rpc', 'sub_bc'): a planned fault makes it raise"""
+        if name not in self.names:
+            return
+        self.occ[name] += 1
+        for p in self.plan:
+            if p['hook'] == name and p['occ'] == self.occ[name] and p['req'] == 'fault':
+                self.log.append(('fault', name, self.occ[name], p['arg']))
+                raise comm_exception(p['arg'])
+
     def perform(self, proc, p, name, k):
         req, arg = p['req'], p['arg']
         if req == 'fault':
@@ -424,6 +434,14 @@ class HarnessCommunicator(kiwipy.LocalCommunicator):
         super().__init__()
         self.run = run
         self.armed = False
+
+    def add_rpc_subscriber(self, subscriber, identifier=None):
+        self.run.hooks.fire_sub('sub_rpc')
+        return super().add_rpc_subscriber(subscriber, identifier)
+
+    def add_broadcast_subscriber(self, subscriber, identifier=None):
+        self.run.hooks.fire_sub('sub_bc')
+        return super().add_broadcast_subscriber(subscriber, identifier)
 
     def broadcast_send(self, body, sender=None, subject=None, correlation_id=None):
         if self.armed and isinstance(subject, str) and subject.startswith('state_changed'):
